@@ -71,6 +71,7 @@ func Run(p *load.Program, tier string) *oblig.Set {
 	r.boundsRule()
 	r.errorExits()
 	r.releaseSites()
+	r.loopState()
 	r.memoryUsers()
 	r.dflt()
 	r.effects()
@@ -815,24 +816,34 @@ func (r *ruler) v7() {
 	if nRet < 4 {
 		r.s.Unk("V7", r.key("RET", "paths"), r.pos, fmt.Sprintf("expected at least 4 normal RET paths, found %d", nRet))
 	}
-	// FUNC
-	for _, pa := range r.normal("FUNC") {
+	// FUNC: every path, in the main context and in a generator
+	{
 		key := r.key("FUNC", "captures the current frame")
-		tp := events(pa, "call", ".Top")
-		sf := events(pa, "call", "SetFrame")
-		ps := events(pa, "call", ".Push")
-		ok := len(tp) == 1 && tp[0].Args[0] == "M" && len(sf) == 1 && sf[0].Args[0] == "V0" && len(ps) == 1 && ps[0].Args[1] == sf[0].Res
-		if ok {
-			if p, isP := sf[0].Vals[1].(*absint.Ptr); !isP || absint.Key(p.Cell.V) != tp[0].Res {
-				ok = false
+		var bad *Path
+		n := 0
+		for _, pa := range r.normal("FUNC") {
+			n++
+			tp := events(pa, "call", ".Top")
+			sf := events(pa, "call", "SetFrame")
+			ps := events(pa, "call", ".Push")
+			ok := len(tp) == 1 && tp[0].Args[0] == "M" && len(sf) == 1 && sf[0].Args[0] == "V0" && len(ps) == 1 && ps[0].Args[1] == sf[0].Res
+			if ok {
+				if p, isP := sf[0].Vals[1].(*absint.Ptr); !isP || absint.Key(p.Cell.V) != tp[0].Res {
+					ok = false
+				}
+			}
+			if !ok && bad == nil {
+				bad = pa
 			}
 		}
-		if ok {
-			r.s.OK("V7", key, r.ppos(pa), "FUNC pushes the function constant with frame = m.Top()")
-		} else {
-			r.s.Bad("V7", key, r.ppos(pa), "FUNC must push the fetched function value with its frame set to the current top frame", pa.Describe()...)
+		switch {
+		case bad != nil:
+			r.s.Bad("V7", key, r.ppos(bad), "FUNC must push the fetched function value with its frame set to the current top frame, on every path (a frame remembered from an earlier instruction is the frame of whatever call was running then)", bad.Describe()...)
+		case n == 0:
+			r.s.Bad("V7", key, r.pos, "FUNC has no path that continues")
+		default:
+			r.s.OK("V7", key, r.pos, fmt.Sprintf("FUNC pushes the function constant with frame = m.Top() on all %d paths", n))
 		}
-		break
 	}
 }
 
@@ -865,9 +876,7 @@ func (r *ruler) v10() {
 		why := ""
 		for _, pa := range r.m.Paths["MOV"] {
 			ns := condsWith(pa, "IsNil#")
-			if len(ns) == 0 || !strings.HasSuffix(ns[len(ns)-1], ":= true") {
-				continue
-			}
+			nilKnown := len(ns) > 0 && strings.HasSuffix(ns[len(ns)-1], ":= true")
 			toTmp, decided := false, false
 			for _, c := range pa.Conds {
 				if strings.HasPrefix(c, "==(K1,"+tmpK+") := ") {
@@ -878,6 +887,14 @@ func (r *ruler) v10() {
 				}
 			}
 			isErr := pa.End == "return"
+			if !nilKnown {
+				// the value is not known to be missing: only a move into the temp
+				// register that goes on counts (the destination may be tested first)
+				if !isErr && decided && toTmp && pa.End == "next" && len(ns) == 0 {
+					nPark++
+				}
+				continue
+			}
 			switch {
 			case isErr && !decided:
 				if bad == nil {
